@@ -111,8 +111,62 @@ def check_grammar(grammar, maxlen=5, limit=3):
                         return {"kind": "semantics-differ", "grammar": text, "cases": bad, "n": n, "code": code[-3000:]}
     if bad:
         return {"kind": "semantics-differ", "grammar": text, "cases": bad, "n": n, "code": code[-3000:]}
+    model = model_comparison(grammar, code, cls, min(maxlen, 4))
+    if model.get("bad"):
+        return {"kind": "model-differs", "grammar": text, "cases": model["bad"][:limit], "n": n, "code": code[-3000:]}
     feats = sorted({k for r in grammar["rules"] for a in r["alts"] for it in a["items"] for k in _kinds(it)})
-    return {"ok": True, "n": n, "reached": reached, "features": feats, "leftrec": sorted(lr), "memo": [r["name"] for r in grammar["rules"] if r["memo"]], "grammar": text, "analysis_differs": analysis_differs}
+    return {"ok": True, "n": n, "reached": reached, "features": feats, "leftrec": sorted(lr), "memo": [r["name"] for r in grammar["rules"] if r["memo"]], "grammar": text, "analysis_differs": analysis_differs, "model": {k: v for k, v in model.items() if k != "bad"}}
+
+
+def model_comparison(grammar, code, cls, maxlen):
+    """The generated module translated into the recogniser IR (the translator used for the shipped parser) and run by the
+    Lean model through the native driver, against the generated parser itself: accept/fail/raise and the end position
+    must be equal on every rule x token string.  {"requests", "undecided", "skipped", "bad": [...]}"""
+    import os
+    import tempfile
+
+    from harness import corr
+    from harness.translate import wire_prog
+    from harness.translate.parser_ir import Translator
+
+    if not corr.DRIVER.exists():
+        return {"skipped": "driver not built"}
+    fd, tmp = tempfile.mkstemp(suffix=".py", prefix="xv_c17_")
+    try:
+        with os.fdopen(fd, "w") as fh:
+            fh.write(code)
+        try:
+            ir = Translator(__import__("pathlib").Path(tmp)).run()
+        except Exception as e:  # noqa: BLE001
+            return {"skipped": f"translator: {type(e).__name__}"}
+    finally:
+        os.unlink(tmp)
+    if ir["unmodelled"]:
+        return {"skipped": "unmodelled:" + str(ir["unmodelled"][0])[:60]}
+    names = [r["name"] for r in ir["rules"]]
+    prog = " ".join(wire_prog.w_prog(ir))
+    kws = set(ir["keywords"])
+    reqs = []
+    for L in range(0, maxlen + 1):
+        for toks in itertools.product(G.TOKENS, repeat=L):
+            tl = [f"NAME:{ir['strings'].get(t, 10 ** 6)}:{1 if t in kws else 0}:0" for t in toks] + [f"ENDMARKER:{ir['strings'].get('', 10 ** 6)}:0:0"]
+            for r in grammar["rules"]:
+                if r["name"] in names:
+                    reqs.append((r["name"], toks, f"parsep {names.index(r['name'])} 200000 # {prog} ## {' '.join(tl)}"))
+    answers = corr.Driver().ask_many([q[2] for q in reqs])
+    bad = []
+    undecided = 0
+    for (rule, toks, _q), ans in zip(reqs, answers):
+        a = run_impl(cls, rule, toks)
+        if ans == "undecided":
+            undecided += 1
+            continue
+        want = {"ok": f"ok {a[2]}" if a[0] == "ok" else None, "fail": "fail", "raise": "raised"}.get(a[0])
+        if a[0] == "recursion" or want is None:
+            continue
+        if ans != want:
+            bad.append({"rule": rule, "tokens": list(toks), "generated_parser": repr(a), "lean_model_of_generated_code": ans})
+    return {"requests": len(reqs), "undecided": undecided, "bad": bad}
 
 
 def _kinds(it):
@@ -217,6 +271,8 @@ def run(rep, tier, pool, variants=("shipped",)):
             continue
     res = pool.call("harness.props.c17:check_grammar", [(g, maxlen) for g in gs], timeout=90)
     total_strings = 0
+    model_stats = {"grammars": 0, "requests": 0, "undecided": 0, "skipped": 0}
+    model_bad = []
     for g, o in zip(gs, res):
         text = o.get("grammar") or G.render(g)
         if o.get("skip") or o.get("k") in ("hang", "crash", "worker-exc", "not-run"):
@@ -225,6 +281,16 @@ def run(rep, tier, pool, variants=("shipped",)):
             continue
         rep.case(text, True, sample={"grammar": text[text.index("@trailer") + 12 :][:300], "strings_x_rules": o.get("n")} if len(rep.samples) < 3 else None)
         total_strings += o.get("n", 0)
+        m = o.get("model") or {}
+        if "requests" in m:
+            model_stats["grammars"] += 1
+            model_stats["requests"] += m["requests"]
+            model_stats["undecided"] += m.get("undecided", 0)
+        elif m.get("skipped"):
+            model_stats["skipped"] += 1
+            rep.count("model-skipped:" + str(m["skipped"])[:40])
+        if o.get("kind") == "model-differs":
+            model_bad.append({"grammar": text[text.index("@trailer") + 12 :][:400], "cases": o["cases"][:2]})
         if o.get("ok"):
             for f in o["features"]:
                 rep.count("feature:" + f)
@@ -235,10 +301,18 @@ def run(rep, tier, pool, variants=("shipped",)):
             for k, v in o["reached"].items():
                 rep.count("outcome:" + k, v)
             continue
+        if o.get("kind") == "model-differs":
+            continue  # a broken correspondence (reported as an obligation), not a PEG-semantics verdict
         c = o["cases"][0]
         rep.violation(
             f"C17 generated parser != PEG semantics: rule {c['rule']} on {c['tokens']}: parser {short(c['generated_parser'], 50)} reference {short(c['reference'], 50)}",
             {"property": "C17", "grammar": text, "cases": o["cases"], "generated_code_tail": o.get("code"), "oracle": "reference PEG interpreter harness/gen/grammars.py:Ref"},
         )
     rep.extra["token_strings_x_rules"] = total_strings
+    rep.extra.setdefault("correspondence", {})["generated-code-IR"] = dict(model_stats, disagreements=len(model_bad))
+    rep.obligation(
+        f"corr:generated-code-IR (the Lean model run on the translated IR of {model_stats['grammars']} freshly generated parsers == those parsers: accept/fail/raise and end position on {model_stats['requests']} rule x token-string requests, {model_stats['undecided']} undecided)",
+        not model_bad and model_stats["grammars"] > 0,
+        str(model_bad[:1])[:700] if model_bad else ("no grammar could be compared" if not model_stats["grammars"] else ""),
+    )
     rep.evaluations = max(rep.evaluations, total_strings)
